@@ -1,4 +1,328 @@
-(* C08 - placeholder while the correspondence is being validated *)
+(* C08 - temporal aggregation and disaggregation reduce by group and conserve
+   totals.  Statements only; every proof is `exact <lemma>` from
+   Proofs/DutilsProofs.v / Proofs/DutilsCalProofs.v.
+
+   Vocabulary (all defined in Proofs/DutilsProofs.v):
+     [RN]            real numbers with an explicit missing value, [None] = NaN
+     [runs l]        the maximal runs of equal index of [l : list (index * value)]
+     [nondecr ks]    the index never decreases; [decreases_somewhere ks] its negation
+     [present g]     the non-missing values of a group, in order; [nmiss g] the
+                     number of missing ones
+     [reduce op maxnan g]  None when nmiss g > maxnan, otherwise the sum (op 0),
+                     mean (1), maximum (2), last (3) of [present g]
+     [flat_group maxnan g] the group with every present value replaced by the
+                     mean of the present values (all missing when nmiss g > maxnan)
+   [py_aggregate] / [py_flathomogen] / [py_monthly2daily] are the models of the
+   Python entry points, kernels included (Model/Dutils.v); [agg_upd] is the
+   repaired reduction step, [agg_upd_pinned] the one of the pinned commit. *)
 From Coq Require Import ZArith Bool List Reals.
-From Hy Require Import Base.Num Gen.ConstsC08 Model.Dutils.
+From Hy Require Import Base.Num Gen.ConstsC08 Model.Dutils
+     Proofs.DutilsProofs Proofs.DutilsCalProofs.
 Import ListNotations.
+
+(* ------------------------------------------------------------------ *)
+(* groups: with a non-decreasing index there is one group per distinct
+   index value, in increasing order, holding the elements with that index *)
+
+Theorem C08_groups_partition_the_input : forall (l : list (Z * option R)),
+  concat (map snd (runs l)) = map snd l.
+Proof. exact (@runs_concat (option R)). Qed.
+Print Assumptions C08_groups_partition_the_input.
+
+Theorem C08_group_keys_strictly_increase : forall (l : list (Z * option R)),
+  nondecr (map fst l) -> strictly_incr (map fst (runs l)).
+Proof. exact (@runs_keys_incr (option R)). Qed.
+Print Assumptions C08_group_keys_strictly_increase.
+
+Theorem C08_group_keys_are_the_index_values : forall (l : list (Z * option R)) k,
+  In k (map fst (runs l)) <-> In k (map fst l).
+Proof. exact (@runs_keys_in (option R)). Qed.
+Print Assumptions C08_group_keys_are_the_index_values.
+
+Theorem C08_group_holds_the_elements_with_its_key : forall (l : list (Z * option R)) k g,
+  nondecr (map fst l) -> In (k, g) (runs l) -> g = with_key k l.
+Proof. exact (@runs_group (option R)). Qed.
+Print Assumptions C08_group_holds_the_elements_with_its_key.
+
+Theorem C08_groups_are_nonempty : forall (l : list (Z * option R)),
+  Forall (fun kg => snd kg <> []) (runs l).
+Proof. exact (@runs_nonempty (option R)). Qed.
+Print Assumptions C08_groups_are_nonempty.
+
+Theorem C08_nondecr_or_decreases : forall ks, ~ nondecr ks <-> decreases_somewhere ks.
+Proof. exact not_nondecr_decreases. Qed.
+Print Assumptions C08_nondecr_or_decreases.
+
+(* the int32 conversion of the wrapper is the identity on int32 values *)
+Theorem C08_int32_conversion_is_identity : forall z, in_int32 z -> to_int32 z = z.
+Proof. exact to_int32_id. Qed.
+Print Assumptions C08_int32_conversion_is_identity.
+
+(* ------------------------------------------------------------------ *)
+(* aggregate *)
+
+(* every operator, every maxnan, every length >= 1, every NaN placement:
+   one output per group, in order, = reduce of the group; no error *)
+Theorem C08_aggregate_spec : forall op maxnan idx xs,
+  length idx = length xs -> (1 <= length xs)%nat ->
+  Forall in_int32 idx -> nondecr idx ->
+  py_aggregate RN (agg_upd RN) op maxnan idx xs =
+  DOk (map (fun kg => reduce op maxnan (snd kg)) (runs (combine idx xs))).
+Proof. exact aggregate_spec. Qed.
+Print Assumptions C08_aggregate_spec.
+
+Example C08_aggregate_spec_nonvacuous :
+  length ex_idx = length ex_xs /\ (1 <= length ex_xs)%nat /\
+  Forall in_int32 ex_idx /\ nondecr ex_idx.
+Proof. exact ex_hyps. Qed.
+Print Assumptions C08_aggregate_spec_nonvacuous.
+
+(* a worked instance: maximum with maxnan = 1 over [-1; NaN] [-2] [4; -3] *)
+Example C08_aggregate_max_example :
+  py_aggregate RN (agg_upd RN) 2 1 ex_idx ex_xs = DOk [Some (-1); Some (-2); Some 4]%R.
+Proof. exact ex_max. Qed.
+Print Assumptions C08_aggregate_max_example.
+
+(* what the value of a group is, operator by operator *)
+Theorem C08_reduce_meaning : forall op maxnan g,
+  ((maxnan < nmiss g)%Z -> reduce op maxnan g = None) /\
+  ((nmiss g <= maxnan)%Z ->
+     (op = 0%Z -> reduce op maxnan g = Some (lsum (present g))) /\
+     (op = 1%Z -> present g <> [] ->
+        reduce op maxnan g = Some (lsum (present g) / INR (length (present g)))%R) /\
+     (op = 2%Z -> present g <> [] ->
+        exists m, reduce op maxnan g = Some m /\ In m (present g) /\
+                  Forall (fun y => (y <= m)%R) (present g)) /\
+     (op = 3%Z -> present g <> [] ->
+        exists p v, present g = p ++ [v] /\ reduce op maxnan g = Some v)).
+Proof. exact reduce_meaning. Qed.
+Print Assumptions C08_reduce_meaning.
+
+(* totals: the aggregated sums add up to the sum of the non-missing inputs *)
+Theorem C08_aggregate_sum_conserved : forall maxnan idx xs,
+  length idx = length xs -> (1 <= length xs)%nat ->
+  Forall in_int32 idx -> nondecr idx ->
+  Forall (fun kg => (nmiss (snd kg) <= maxnan)%Z) (runs (combine idx xs)) ->
+  exists outs, py_aggregate RN (agg_upd RN) 0 maxnan idx xs = DOk (somes outs) /\
+               lsum outs = lsum (present xs).
+Proof. exact aggregate_sum_conserved. Qed.
+Print Assumptions C08_aggregate_sum_conserved.
+
+Example C08_sum_conserved_nonvacuous :
+  Forall (fun kg => (nmiss (snd kg) <= 1)%Z) (runs (combine ex_idx ex_xs)).
+Proof. exact ex_within_maxnan. Qed.
+Print Assumptions C08_sum_conserved_nonvacuous.
+
+(* an index that decreases anywhere is rejected - any arithmetic instance
+   (binary64 included), any reduction step *)
+Theorem C08_aggregate_rejects_decreasing_index :
+  forall {T} (N : NumOps T) upd op maxnan idx (xs : list T),
+  length idx = length xs -> Forall in_int32 idx -> decreases_somewhere idx ->
+  py_aggregate N upd op maxnan idx xs = DErrOrder.
+Proof. exact @aggregate_rejects_decreasing. Qed.
+Print Assumptions C08_aggregate_rejects_decreasing_index.
+
+Example C08_decreasing_nonvacuous : decreases_somewhere [199502; 199501; 199503]%Z.
+Proof. exact ex_decreasing. Qed.
+Print Assumptions C08_decreasing_nonvacuous.
+
+Theorem C08_aggregate_rejects_different_lengths :
+  forall {T} (N : NumOps T) upd op maxnan idx (xs : list T),
+  length idx <> length xs -> py_aggregate N upd op maxnan idx xs = DErrLen.
+Proof. exact @aggregate_rejects_length. Qed.
+Print Assumptions C08_aggregate_rejects_different_lengths.
+
+(* the kernel never stores more values than the output buffer holds *)
+Theorem C08_aggregate_output_fits_buffer : forall op maxnan (idx : list Z) (xs : list (option R)),
+  length idx = length xs ->
+  (length (map (fun kg => reduce op maxnan (snd kg)) (runs (combine idx xs))) <= length xs)%nat.
+Proof. exact aggregate_fits_buffer. Qed.
+Print Assumptions C08_aggregate_output_fits_buffer.
+
+(* the pinned kernel does NOT meet C08_aggregate_spec: maximum of [-1; -2]
+   (it gives 0), last value of [3; NaN] with maxnan = 1 (it gives 0).  Both
+   witnesses reproduce on the real code (notes/C08.md); repaired by two
+   `fix:` commits, after which [agg_upd] is the model of the code. *)
+Theorem C08_pinned_max_refuted :
+  exists op maxnan idx xs,
+    length idx = length xs /\ (1 <= length xs)%nat /\ Forall in_int32 idx /\ nondecr idx /\
+    py_aggregate RN (agg_upd_pinned RN) op maxnan idx xs <>
+    DOk (map (fun kg => reduce op maxnan (snd kg)) (runs (combine idx xs))).
+Proof. exact pinned_max_refuted. Qed.
+Print Assumptions C08_pinned_max_refuted.
+
+Theorem C08_pinned_tail_refuted :
+  exists op maxnan idx xs,
+    length idx = length xs /\ (1 <= length xs)%nat /\ Forall in_int32 idx /\ nondecr idx /\
+    py_aggregate RN (agg_upd_pinned RN) op maxnan idx xs <>
+    DOk (map (fun kg => reduce op maxnan (snd kg)) (runs (combine idx xs))).
+Proof. exact pinned_tail_refuted. Qed.
+Print Assumptions C08_pinned_tail_refuted.
+
+(* ------------------------------------------------------------------ *)
+(* flathomogen *)
+
+Theorem C08_flathomogen_spec : forall maxnan idx xs,
+  length idx = length xs -> (1 <= length xs)%nat ->
+  Forall in_int32 idx -> nondecr idx ->
+  py_flathomogen RN maxnan idx xs =
+  DOk (concat (map (fun kg => flat_group maxnan (snd kg)) (runs (combine idx xs)))).
+Proof. exact flathomogen_spec. Qed.
+Print Assumptions C08_flathomogen_spec.
+
+(* inside a group: a missing entry stays missing, a present one becomes the
+   mean of the present values of the group (when the group is within maxnan) *)
+Theorem C08_flat_group_pointwise : forall maxnan g,
+  Forall2 (fun x o =>
+             match x with
+             | None => o = None
+             | Some _ => (nmiss g <= maxnan)%Z ->
+                         o = Some (lsum (present g) / INR (length (present g)))%R
+             end) g (flat_group maxnan g).
+Proof. exact flat_group_pointwise. Qed.
+Print Assumptions C08_flat_group_pointwise.
+
+Theorem C08_flathomogen_keeps_length_and_missing : forall maxnan idx xs,
+  length idx = length xs -> (1 <= length xs)%nat ->
+  Forall in_int32 idx -> nondecr idx ->
+  exists out, py_flathomogen RN maxnan idx xs = DOk out /\
+              length out = length xs /\
+              Forall2 (fun x o => x = None -> o = None) xs out.
+Proof. exact flathomogen_missing_kept. Qed.
+Print Assumptions C08_flathomogen_keeps_length_and_missing.
+
+(* each group's total is preserved *)
+Theorem C08_flathomogen_preserves_group_total : forall maxnan g,
+  (nmiss g <= maxnan)%Z -> lsum (present (flat_group maxnan g)) = lsum (present g).
+Proof. exact flat_group_total. Qed.
+Print Assumptions C08_flathomogen_preserves_group_total.
+
+Example C08_group_total_nonvacuous : (nmiss [Some 1; None; Some 5]%R <= 1)%Z.
+Proof. cbv; discriminate. Qed.
+Print Assumptions C08_group_total_nonvacuous.
+
+Theorem C08_flathomogen_total_conserved : forall maxnan idx xs,
+  length idx = length xs -> (1 <= length xs)%nat ->
+  Forall in_int32 idx -> nondecr idx ->
+  Forall (fun kg => (nmiss (snd kg) <= maxnan)%Z) (runs (combine idx xs)) ->
+  exists out, py_flathomogen RN maxnan idx xs = DOk out /\
+              lsum (present out) = lsum (present xs).
+Proof. exact flathomogen_total_conserved. Qed.
+Print Assumptions C08_flathomogen_total_conserved.
+
+Theorem C08_flathomogen_rejects_decreasing_index :
+  forall {T} (N : NumOps T) maxnan idx (xs : list T),
+  length idx = length xs -> Forall in_int32 idx -> decreases_somewhere idx ->
+  py_flathomogen N maxnan idx xs = DErrOrder.
+Proof. exact @flathomogen_rejects_decreasing. Qed.
+Print Assumptions C08_flathomogen_rejects_decreasing_index.
+
+Theorem C08_flathomogen_rejects_different_lengths :
+  forall {T} (N : NumOps T) maxnan idx (xs : list T),
+  length idx <> length xs -> py_flathomogen N maxnan idx xs = DErrLen.
+Proof. exact @flathomogen_rejects_length. Qed.
+Print Assumptions C08_flathomogen_rejects_different_lengths.
+
+(* ------------------------------------------------------------------ *)
+(* calendar (c_dateutils.c; table and moduli re-extracted from the source) *)
+
+Theorem C08_leap_year_rule : forall y,
+  is_leap y = true <-> ((4 | y) /\ (~ (100 | y) \/ (400 | y)))%Z.
+Proof. exact is_leap_spec. Qed.
+Print Assumptions C08_leap_year_rule.
+
+Example C08_leap_year_examples :
+  is_leap 2000 = true /\ is_leap 1900 = false /\ is_leap 2024 = true /\ is_leap 2023 = false.
+Proof. exact ex_leap. Qed.
+Print Assumptions C08_leap_year_examples.
+
+Theorem C08_days_in_month : forall y m, (1 <= m <= 12)%Z ->
+  days_in_month y m = month_len (is_leap y) m /\ (28 <= days_in_month y m <= 31)%Z.
+Proof. intros y m H. split; [exact (days_in_month_valid y m H)|exact (days_in_month_bounds y m H)]. Qed.
+Print Assumptions C08_days_in_month.
+
+Theorem C08_days_in_february : forall y, days_in_month y 2 = if is_leap y then 29%Z else 28%Z.
+Proof. exact days_in_february. Qed.
+Print Assumptions C08_days_in_february.
+
+Theorem C08_days_in_invalid_month : forall y m, (m < 1 \/ 12 < m)%Z -> days_in_month y m = (-1)%Z.
+Proof. exact days_in_month_invalid. Qed.
+Print Assumptions C08_days_in_invalid_month.
+
+Theorem C08_days_in_year : forall y, year_days y = if is_leap y then 366%Z else 365%Z.
+Proof. exact year_days_spec. Qed.
+Print Assumptions C08_days_in_year.
+
+(* every month fits the 32-point evaluation grid of the cubic interpolation *)
+Theorem C08_month_fits_cubic_grid : forall y m, (1 <= m <= 12)%Z ->
+  (1 <= days_in_month y m <= M2D_NGRID - 1)%Z.
+Proof. exact days_in_month_fits_grid. Qed.
+Print Assumptions C08_month_fits_cubic_grid.
+
+Theorem C08_add1month_on_month_start : forall ym, valid_month ym ->
+  c_add1month (fst ym, snd ym, 1%Z) = Some (fst (next_month ym), snd (next_month ym), 1%Z).
+Proof. exact add1month_first. Qed.
+Print Assumptions C08_add1month_on_month_start.
+
+(* one block per month = one entry per calendar day: stepping day by day with
+   the kernel's add-one-day from the first day enumerates exactly the days of
+   the successive months *)
+Theorem C08_month_blocks_are_consecutive_days : forall ym n, valid_month ym ->
+  days_from (fst ym, snd ym, 1%Z) (length (flat_map month_days (months_from ym n))) =
+  flat_map month_days (months_from ym n).
+Proof. exact month_blocks_are_consecutive_days. Qed.
+Print Assumptions C08_month_blocks_are_consecutive_days.
+
+(* ------------------------------------------------------------------ *)
+(* monthly2daily: the output is the concatenation of one block per month with
+   as many values as the month has days (leap years included), adding up to
+   the monthly value *)
+
+Theorem C08_monthly2daily_flat : forall start vals,
+  valid_month start -> Forall (fun v => (0 <= v)%R) vals ->
+  exists blocks,
+    m2d_flat RR 0%R start vals = concat blocks /\
+    month_blocks_ok start vals blocks /\
+    Forall2 (fun p b => Forall (fun d => d = (snd p / IZR (dim_of (fst p)))%R) b)
+            (combine (months_from start (length vals)) vals) blocks.
+Proof. exact m2d_flat_spec. Qed.
+Print Assumptions C08_monthly2daily_flat.
+
+Example C08_monthly2daily_nonvacuous :
+  valid_month (2000%Z, 2%Z) /\ Forall (fun v => (0 <= v)%R) [58; 0; 15]%R.
+Proof. exact ex_m2d_hyps. Qed.
+Print Assumptions C08_monthly2daily_nonvacuous.
+
+Example C08_monthly2daily_flat_example :
+  exists rest, m2d_flat RR 0%R (2000%Z, 2%Z) [58; 0; 15]%R = repeat (58 / 29)%R 29 ++ rest.
+Proof. exact ex_m2d_flat_first_block. Qed.
+Print Assumptions C08_monthly2daily_flat_example.
+
+(* cubic: whatever the monthly values (no sign condition) and whatever the
+   derivative constraints computed by the adjustment loop *)
+Theorem C08_monthly2daily_cubic : forall minthr start vals,
+  valid_month start ->
+  exists blocks,
+    m2d_cubic RR minthr start vals = concat blocks /\
+    month_blocks_ok start vals blocks.
+Proof. exact m2d_cubic_spec. Qed.
+Print Assumptions C08_monthly2daily_cubic.
+
+(* telescoping for one month, any d0*n, d1*n *)
+Theorem C08_cubic_month_sums_to_monthly_value : forall r : mrec (T:=R),
+  (1 <= m_nd r <= M2D_NGRID - 1)%Z ->
+  lsum (m2d_cubic_month RR r) = m_y r /\
+  Z.of_nat (length (m2d_cubic_month RR r)) = m_nd r.
+Proof. exact cubic_month_sum. Qed.
+Print Assumptions C08_cubic_month_sums_to_monthly_value.
+
+Example C08_cubic_month_nonvacuous : (1 <= m_nd (mkM 29%Z 58 1 3)%R <= M2D_NGRID - 1)%Z.
+Proof. exact ex_cubic_rec. Qed.
+Print Assumptions C08_cubic_month_nonvacuous.
+
+Theorem C08_monthly2daily_rejects_unknown_interpolation :
+  forall {T} (N : NumOps T) interp minthr start vals,
+  interp <> 0%Z -> interp <> 1%Z ->
+  py_monthly2daily N interp minthr start vals = DErrArg.
+Proof. exact @m2d_rejects_unknown_interpolation. Qed.
+Print Assumptions C08_monthly2daily_rejects_unknown_interpolation.
